@@ -53,6 +53,7 @@ func selfTest(ctx *core.Ctx) error {
 	for _, nc := range []struct{ cfg, inv string }{
 		{"MC_ContentOps_f9.cfg", "ImageAlwaysRoundTrips"}, // the writer as coded loses ambiguous image data
 		{"MC_ContentOps_nosep.cfg", "RoundTripOps"},       // a formatter that drops the separator after a name
+		{"MC_ContentOps_rawnolf.cfg", "RoundTripOps"},     // a writer that lets a comment run into the next operator
 	} {
 		res, err := ctx.TLC(core.TLCOpts{Dir: "syntax", Module: "MC_ContentOps", Cfg: nc.cfg, Workers: 8, Mode: "negative-control", XssMB: 512, Quiet: true})
 		if err != nil {
